@@ -47,8 +47,8 @@ CHECKS = {
  "C03": dict(level="model_checking", design="4/C03", technique="TLA+ DnsForward (reply assembly, MC with TLC) + TLC trace validation (ForwardTrace) of the real DnsService in a private network namespace against scripted upstreams",
    text="Every query/reply pair of the end-to-end rig is judged by TLC: id, question, QR and rcode of the client's reply and section-wise equality (record order, names expanded, types, classes, rdata; TTL only reduced, equal when uncached) with what the scripted upstream sent, both projected by an independent walker; upstream replies are generated structured messages of all rdata shapes, compressed or not, over UDP and TCP, IPv4 and IPv6 upstreams.",
    note="in-process service in a private namespace (unshare -n -m); real sockets and timers; projections by the harness"),
- "C07": dict(level="model_checking", design="4/C07", technique="TLA+ DnsForward: exhaustive MC (TLC) of concurrent queries x retransmissions x upstream faults incl. liveness under fairness + TLC trace validation (ForwardTrace) of the real DnsService under scripted fault schedules",
-   text="TLC checks AtMostOne, Own, Served and MaxTransmissions on every interleaving of 3 concurrent queries (UDP and TCP, 2 upstream ids so collisions are reachable, 3 transmissions, 3 adversary faults: loss, wrong id, TC, duplicates, TCP silence) and the leads-to property under weak fairness; the same predicates are evaluated per query on batches of real concurrent queries over IPv4-only, IPv6-only and dual-stack listeners against upstreams executing drop/duplicate/late/wrong-id/TC/reorder/silent schedules, incl. a forced upstream id collision.",
+ "C07": dict(level="model_checking", design="4/C07", technique="TLA+ DnsForward: exhaustive MC (TLC) of concurrent queries x retransmissions x upstream faults incl. liveness under fairness; TLA+ DnsTcpStream: every segmentation of a client's TCP stream of frames (the one-query-per-connection listener is refuted); TLC trace validation (ForwardTrace) of the real DnsService under scripted fault schedules",
+   text="TLC checks AtMostOne, Own, Served and MaxTransmissions on every interleaving of 3 concurrent queries (UDP and TCP, 2 upstream ids so collisions are reachable, 3 transmissions, 3 adversary faults: loss, wrong id, TC, duplicates, TCP silence) and the leads-to property under weak fairness; the same predicates are evaluated per query on batches of real concurrent queries over IPv4-only, IPv6-only and dual-stack listeners against upstreams executing drop/duplicate/late/wrong-id/TC/reorder/silent/hang-up schedules, incl. a forced upstream id collision, and clients that pipeline several queries on one TCP connection with the stream cut at arbitrary octets.",
    note="MC bounds: 3 queries, 2 ids, MaxTx 3; the rig uses real timers (retransmission at 0.8 s x 1.5..2.5)"),
  "C08": dict(level="model_checking", design="4/C08", technique="TLA+ Acl (independent transcription): exhaustive MC (TLC) of the model's lemmas over all rule lists <= 1 rule + TLC trace validation (AclTrace, ForwardTrace) of acl::require_permission and of the real DNS listeners",
    text="TLC proves host-bit irrelevance, nesting, mapped-address equivalence, first-match-wins and no-match-no-access on the Acl model, and evaluates Granted(first_match) for every decision of the real require_permission on YAML-loaded rule lists (0..6 rules, v4/v6 prefixes of boundary lengths with and without host bits, unix flag, all permission subsets) x clients (v4, v6, mapped, v4-compatible, loopback, unix) x 4 operations, for real DNS clients on distinct source addresses (rcode, and whether the upstream saw the question, incl. cached names), and for real HTTP clients (TCP on 9 source addresses incl. mapped through a dual-stack listener; unnamed, path-bound and abstract-bound unix clients) on GET /, /metrics and /api/v1/leases.json (403 = refused).",
